@@ -389,6 +389,28 @@ Section Model.
     do l' <- clear_down (S (index s) - i) l i;
     Ok (mkBig l' (index src)).
 
+  (* BigInt(const BigInt &src): storage_ starts zeroed, words 0..src.index_ are copied *)
+  Definition construct_copy (src : bigint) : res bigint :=
+    do l <- copy_loop (S (index src)) (repeat 0 (length (words src))) (words src) 0;
+    Ok (mkBig l (index src)).
+
+  (* BigInt(BigInt &&src): the same copy, then src.Clear()  ->  (new object, moved-from object) *)
+  Definition move_construct (src : bigint) : res (bigint * bigint) :=
+    do t <- construct_copy src; do src' <- clear src; Ok (t, src').
+
+  (* operator=(BigInt &&src) with this != &src: copy(src); src.Clear()  ->  (this, moved-from object) *)
+  Definition move_assign (s src : bigint) : res (bigint * bigint) :=
+    do s' <- copy_assign s src; do src' <- clear src; Ok (s', src').
+
+  (* what a history observes of a secondary object: 2 * Index() + (1 if any word is non-zero) *)
+  Definition obs_code (s : bigint) : N :=
+    2 * N.of_nat (index s) + (if forallb (fun x => x =? 0) (words s) then 0 else 1).
+
+  (* Storage()[i] = x (the caller's write through the non-const pointer) and SetIndex(k) *)
+  Definition set_index (s : bigint) (k : nat) : bigint := mkBig (words s) k.
+  Definition poke (s : bigint) (i : nat) (x : N) (k : nat) : res bigint :=
+    do l <- wr (words s) i x; Ok (set_index (mkBig l (index s)) k).
+
   (* ---- FindFirstBit (D6 repaired) / FindLastBit ---- *)
   Fixpoint ffb_loop (fuel : nat) (l : list N) (idx i : nat) : res nat :=
     match fuel with
@@ -446,7 +468,11 @@ Section Model.
   | OSet (ow v : N) | OAdd (ow v : N) | OSub (ow v : N) | OOr (ow v : N) | OAnd (ow v : N)
   | OAddAt (v : N) (i : nat) | OSubAt (v : N) (i : nat)
   | OMul (v : N) | ODiv (v : N) | OShl (k : N) | OShr (k : N)
-  | OFfb | OFlb | OCmp (v : N) | ONarrow (tw : N) | OCopy (ow v : N) | OClear.
+  | OFfb | OFlb | OCmp (v : N) | ONarrow (tw : N) | OCopy (ow v : N) | OClear
+  (* operator/=;  x = std::move(BigInt{v});  BigInt t(std::move(x)); x = std::move(t);
+     BigInt t(x); x.Clear(); x = t;  x = std::move(x);  Storage()[i] = v; SetIndex(k) *)
+  | ODivAssign (v : N) | OMoveAssign (ow v : N) | OMoveRound | OCopyRound | OSelfMove
+  | OPoke (i : nat) (v : N) (k : nat).
 
   Definition zero_big (n : nat) : bigint := mkBig (repeat 0 n) 0.
 
@@ -471,6 +497,20 @@ Section Model.
         do src <- assign ow (zero_big (length (words s))) v;
         do s' <- copy_assign s src; Ok (s', 0)
     | OClear => do s' <- clear s; Ok (s', 0)
+    | ODivAssign v => do '(s', _) <- divide s v; Ok (s', 0)
+    | OMoveAssign ow v =>
+        do src <- assign ow (zero_big (length (words s))) v;
+        do '(s', src') <- move_assign s src; Ok (s', obs_code src')
+    | OMoveRound =>
+        do '(t, s1) <- move_construct s;
+        do '(s2, t') <- move_assign s1 t;
+        Ok (s2, obs_code s1 + 65536 * obs_code t')
+    | OCopyRound =>
+        do t <- construct_copy s;
+        do s1 <- clear s;
+        do s2 <- copy_assign s1 t; Ok (s2, 0)
+    | OSelfMove => Ok (s, 0)
+    | OPoke i v k => do s' <- poke s i v k; Ok (s', 0)
     end.
 
   (* a history: the observable after every step; stops at the first Error *)
@@ -520,6 +560,14 @@ Section Model.
     | ONarrow tw => Some (v, v mod 2 ^ tw)
     | OCopy ow x => if x <? 2 ^ ow then fit x 0 else None
     | OClear => Some (0, 0)
+    | ODivAssign d => if (d =? 0) || (Bw <=? d) then None else Some (v / d, 0)
+    | OMoveAssign ow x => if x <? 2 ^ ow then fit x 0 else None
+    | OMoveRound | OCopyRound | OSelfMove => Some (v, 0)
+    | OPoke i x k =>
+        (* the caller must leave the object well formed: k has to be the top word of the new contents *)
+        let p := 2 ^ (w * N.of_nat i) in
+        let v' := v - ((v / p) mod Bw) * p + x * p in
+        if (i <? n)%nat && (x <? Bw) && (k =? top_index v')%nat then Some (v', 0) else None
     end.
 
   (* ORACLE: judges an observed history (index, words with trailing zeros
